@@ -102,6 +102,41 @@ theorem fracDigits_whole_of_dec {α} [NumOps α] (q : FmtQuirks) (p : ℕ) (s : 
         · simp only [he, if_false, Bool.false_eq_true]
           split <;> rfl
 
+/-! ### zero and sign -/
+
+theorem fracVal_nonneg (ds : List ℕ) : 0 ≤ fracVal ds := by
+  induction ds with
+  | nil => simp [fracVal]
+  | cons d ds ih => simp only [fracVal]; positivity
+
+theorem fracVal_pos (ds : List ℕ) (h : NoTrailingZero ds) (hne : ds ≠ []) : 0 < fracVal ds := by
+  rcases h with h | ⟨ds', c, h, hc⟩
+  · exact absurd h hne
+  · rw [h, fracVal_append_singleton]
+    have := fracVal_nonneg ds'
+    have hc' : (0 : ℚ) < c := by exact_mod_cast Nat.pos_of_ne_zero hc
+    have : (0 : ℚ) < (c : ℚ) / 10 ^ (ds'.length + 1) := by positivity
+    linarith
+
+/-- the printed magnitude is zero exactly when the text is the bare integer part `0` -/
+theorem printedAbs_eq_zero_iff (q : FmtQuirks) (p : ℕ) (x : ℚ) :
+    printedAbs (fracDigits q p x) = 0 ↔
+      (fracDigits q p x).2 = 0 ∧ (fracDigits q p x).1 = [] := by
+  obtain ⟨w, hw⟩ := fracDigits_whole_nat q p x
+  have hnn := fracVal_nonneg (fracDigits q p x).1
+  have hw0 : (0 : ℚ) ≤ (fracDigits q p x).2 := by rw [hw]; exact Nat.cast_nonneg w
+  unfold printedAbs
+  constructor
+  · intro h
+    have h1 : (fracDigits q p x).2 = 0 := by linarith
+    have h2 : fracVal (fracDigits q p x).1 = 0 := by linarith
+    refine ⟨h1, ?_⟩
+    by_contra hne
+    have := fracVal_pos _ (fracDigits_shape q p x).1 hne
+    linarith
+  · rintro ⟨h1, h2⟩
+    rw [h1, h2]; simp [fracVal]
+
 /-! ### characters -/
 
 theorem digitChar_isDigit (d : ℕ) (h : d < 10) : (digitChar d).isDigit = true := by
